@@ -4,6 +4,8 @@ import (
 	"fmt"
 	"math"
 	"math/rand"
+	"strconv"
+	"strings"
 
 	"verif/harness/core"
 	"verif/harness/sx"
@@ -12,13 +14,18 @@ import (
 )
 
 // ---- generator -----------------------------------------------------------------------------------------------
+//
+// Values are generated as node trees (a shared node is the same *node), built once with pcore to learn what String()
+// prints for leaves and objects (the `disp` payload — not part of this property, so it is taken from the
+// implementation), and printed in the op syntax.  The serialization string of a leaf is NOT taken from the
+// implementation: it is the canonical source text below — that is the specification the codecs are held to.
 
 var longStr = "a string long enough to be de-duplicated"
 var longUni = "ééééééééééé" // 11 characters, 22 bytes: the threshold counts bytes
 
 // strings that collide with what the serializer itself emits, plus ordinary ones
 var genStrs = []string{"", "a", "b", "k", "1", "90", "AQID", "default", "Default", "Sensitive", "Hash", "Binary", "Type", "Regexp",
-	"__ptype", "__pvalue", "__pref", longStr, longUni, "Sensitive [value redacted]", "é"}
+	"__ptype", "__pvalue", "__pref", longStr, longUni, "Sensitive [value redacted]", "é", "Verif::Pair", "Verif::Ints"}
 var genInts = []int64{0, 1, -1, 42, math.MaxInt64, math.MinInt64}
 var genFloats = []float64{0, 1, -1.5, 1e21, math.SmallestNonzeroFloat64, math.Inf(1)}
 var genBins = [][]byte{{1, 2, 3}, {}, {0xff}, []byte("0123456789abcdefghijklmnop")}
@@ -32,97 +39,85 @@ var leafSrc = map[string][]string{
 	"uri": {"http://example.com/a?b=c#d", "file:///tmp/x", "urn:isbn:1"},
 	"ty": {"String", "Integer[1, 2]", "Array[String]", "Optional[Hash[String, Integer]]", "Type[Integer]",
 		"Struct[{'a' => String}]", "Enum['a', 'b']", "Variant[String, Integer]", "Any", "Pattern[/a/]"},
+	"td": {"Verif::Pair", "Verif::Ints", "Verif::Unit"},
 }
 
-type leafSpec struct{ kind, enc, disp string }
-
-// leafCatalogue: the serialization string of every entry is its (canonical) source text — that is the specification the
-// codecs are held to; only String() (not part of this property) is taken from the implementation
-func leafCatalogue() []leafSpec {
-	b := &builder{c: px.CurrentContext(), memo: map[*node]px.Value{}, types: map[string]px.Value{}}
-	var out []leafSpec
-	for _, k := range leafKinds {
-		for _, src := range leafSrc[k] {
-			func() {
-				defer func() { _ = recover() }()
-				v := b.leaf(k, src)
-				out = append(out, leafSpec{k, src, v.String()})
-			}()
-		}
-	}
-	return out
-}
-
-// gv is a generated value: its op syntax and its identity-free text (used to keep hash keys distinct)
-type gv struct {
-	sx      sx.Sexp
-	abs     string
-	unkeyed bool // holds a Sensitive: never equal to itself, so not usable as a hash key
+// object type definitions no loader knows (implementation only: they travel as Pcore::ObjectType instances and are
+// registered by the deserializer)
+var tdefSrc = []string{
+	`Object[{name => 'Verif::Fresh', attributes => {'z' => Integer}}]`,
+	`Object[{attributes => {'z' => Integer}}]`,
+	`Object[{name => 'Verif::Fresh2', parent => Verif::Pair, attributes => {'c' => {'type' => String, 'value' => 'x'}}}]`,
 }
 
 type vgen struct {
-	r      *rand.Rand
-	next   int64
-	pool   []poolEntry // completed identified objects, usable through (= id)
-	leaves []leafSpec
-}
-
-type poolEntry struct {
-	id      int64
-	abs     string
-	unkeyed bool
+	r    *rand.Rand
+	next int64
+	pool []*node // completed identified objects, usable again (the same object)
 }
 
 func (g *vgen) id() int64 { g.next++; return g.next }
 
-func (g *vgen) str() gv {
-	s := genStrs[g.r.Intn(len(genStrs))]
-	return gv{sx.T("s", sx.Str(s)), "s" + s, false}
-}
+func (g *vgen) str() *node { return &node{kind: "s", s: genStrs[g.r.Intn(len(genStrs))]} }
 
-func (g *vgen) scalar() gv {
+func (g *vgen) scalar() *node {
 	switch g.r.Intn(8) {
 	case 0:
-		return gv{sx.T("u"), "u", false}
+		return &node{kind: "u"}
 	case 1:
-		b := g.r.Intn(2) == 0
-		return gv{sx.T("b", sx.Bool(b)), "b" + sx.B(b), false}
+		return &node{kind: "b", b: g.r.Intn(2) == 0}
 	case 2:
-		i := genInts[g.r.Intn(len(genInts))]
-		return gv{sx.T("i", sx.Int(i)), fmt.Sprint("i", i), false}
+		return &node{kind: "i", i: genInts[g.r.Intn(len(genInts))]}
 	case 3:
-		f := math.Float64bits(genFloats[g.r.Intn(len(genFloats))])
-		return gv{sx.T("f", sx.A(fmt.Sprint(f))), fmt.Sprint("f", f), false}
+		return &node{kind: "f", f: math.Float64bits(genFloats[g.r.Intn(len(genFloats))])}
 	case 4:
-		return gv{sx.T("df"), "df", false}
+		return &node{kind: "df"}
 	default:
 		return g.str()
 	}
 }
 
-func (g *vgen) define(tag string, abs string, rest func(id int64) []sx.Sexp) gv {
-	id := g.id()
-	xs := append([]sx.Sexp{sx.Int(id)}, rest(id)...)
-	g.pool = append(g.pool, poolEntry{id, abs, false})
-	return gv{sx.T(tag, xs...), abs, false}
+func (g *vgen) keep(n *node) *node { g.pool = append(g.pool, n); return n }
+
+func (g *vgen) leaf() *node {
+	k := leafKinds[g.r.Intn(len(leafKinds))]
+	src := leafSrc[k]
+	return g.keep(&node{kind: "l", id: g.id(), lk: k, s: src[g.r.Intn(len(src))]})
 }
 
-func (g *vgen) leaf() gv {
-	l := g.leaves[g.r.Intn(len(g.leaves))]
-	return g.define("l", "l"+l.kind+l.enc, func(int64) []sx.Sexp { return []sx.Sexp{sx.A(l.kind), sx.Str(l.enc), sx.Str(l.disp)} })
+func (g *vgen) bin() *node {
+	return g.keep(&node{kind: "x", id: g.id(), s: string(genBins[g.r.Intn(len(genBins))])})
 }
 
-func (g *vgen) bin() gv {
-	b := genBins[g.r.Intn(len(genBins))]
-	return g.define("x", "x"+string(b), func(int64) []sx.Sexp { return []sx.Sexp{sx.Bytes(b)} })
+// holds a Sensitive (never equal to itself) or an object: not used as a hash key
+func unkeyed(n *node) bool {
+	if n.kind == "sn" || n.kind == "o" || n.kind == "tdef" {
+		return true
+	}
+	for _, k := range n.kids {
+		if unkeyed(k) {
+			return true
+		}
+	}
+	return false
 }
 
-// value generates a value; key = it will be used as a hash key (no Sensitive, no NaN: they are never equal to themselves)
-func (g *vgen) value(depth int, key bool) gv {
+// absText: identity-free text, used to keep the keys of one hash distinct
+func absText(n *node) string {
+	var sb strings.Builder
+	sb.WriteString(n.kind + ":" + n.lk + ":" + n.s + ":" + strconv.FormatInt(n.i, 10) + ":" + strconv.FormatUint(n.f, 10) + ":" + sx.B(n.b) + "(")
+	for _, k := range n.kids {
+		sb.WriteString(absText(k) + ",")
+	}
+	sb.WriteString(")")
+	return sb.String()
+}
+
+func (g *vgen) value(depth int, key bool) *node {
 	if len(g.pool) > 0 && g.r.Intn(4) == 0 {
 		p := g.pool[g.r.Intn(len(g.pool))]
-		if !key || !p.unkeyed {
-			return gv{sx.T("=", sx.Int(p.id)), p.abs, p.unkeyed}
+		if !key || !unkeyed(p) {
+			return p
 		}
 	}
 	if depth <= 0 {
@@ -134,7 +129,7 @@ func (g *vgen) value(depth int, key bool) gv {
 		}
 		return g.scalar()
 	}
-	switch g.r.Intn(10) {
+	switch g.r.Intn(12) {
 	case 0, 1:
 		return g.scalar()
 	case 2:
@@ -145,59 +140,66 @@ func (g *vgen) value(depth int, key bool) gv {
 		if key {
 			return g.scalar()
 		}
-		id := g.id()
-		in := g.value(depth-1, false)
-		g.pool = append(g.pool, poolEntry{id, "sn(" + in.abs + ")", true})
-		return gv{sx.T("sn", sx.Int(id), in.sx), "sn(" + in.abs + ")", true}
+		n := &node{kind: "sn", id: g.id()}
+		n.kids = []*node{g.value(depth-1, false)}
+		return g.keep(n)
 	case 5, 6, 7:
-		id := g.id()
-		n := g.r.Intn(4)
-		xs := []sx.Sexp{sx.Int(id)}
-		abs := "a("
-		unkeyed := false
-		for i := 0; i < n; i++ {
-			e := g.value(depth-1, key)
-			xs = append(xs, e.sx)
-			abs += e.abs + ","
-			unkeyed = unkeyed || e.unkeyed
+		n := &node{kind: "a", id: g.id()}
+		for i, m := 0, g.r.Intn(4); i < m; i++ {
+			n.kids = append(n.kids, g.value(depth-1, key))
 		}
-		abs += ")"
-		g.pool = append(g.pool, poolEntry{id, abs, unkeyed})
-		return gv{sx.T("a", xs...), abs, unkeyed}
+		return g.keep(n)
+	case 8:
+		if key {
+			return g.scalar()
+		}
+		return g.object(depth)
 	default:
 		return g.hash(depth, key)
 	}
 }
 
-func (g *vgen) hash(depth int, key bool) gv {
-	id := g.id()
-	n := g.r.Intn(4)
-	xs := []sx.Sexp{sx.Int(id)}
-	abs := "h("
+func (g *vgen) object(depth int) *node {
+	n := &node{kind: "o", id: g.id()}
+	switch g.r.Intn(4) {
+	case 0:
+		n.s = "Verif::Unit"
+	case 1:
+		n.s = "Verif::Box" // its attribute has the default undef: omitted from the init hash
+		if g.r.Intn(3) != 0 {
+			v := g.value(depth-1, false)
+			if v.kind != "u" {
+				n.names, n.kids = []string{"v"}, []*node{v}
+			}
+		}
+	default:
+		n.s = "Verif::Pair"
+		n.names, n.kids = []string{"a", "b"}, []*node{g.value(depth-1, false), g.value(depth-1, false)}
+	}
+	return g.keep(n)
+}
+
+func (g *vgen) hash(depth int, key bool) *node {
+	n := &node{kind: "h", id: g.id()}
 	seen := map[string]bool{}
-	unkeyed := false
 	strOnly := g.r.Intn(2) == 0
-	for i := 0; i < n; i++ {
+	for i, m := 0, g.r.Intn(4); i < m; i++ {
 		save := len(g.pool)
-		var k gv
+		var k *node
 		if strOnly || g.r.Intn(2) == 0 {
 			k = g.str()
 		} else {
 			k = g.value(depth-1, true)
 		}
-		if seen[k.abs] {
+		if t := absText(k); seen[t] {
 			g.pool = g.pool[:save]
 			continue
+		} else {
+			seen[t] = true
 		}
-		seen[k.abs] = true
-		v := g.value(depth-1, key)
-		xs = append(xs, sx.L(k.sx, v.sx))
-		abs += k.abs + "=>" + v.abs + ","
-		unkeyed = unkeyed || v.unkeyed
+		n.kids = append(n.kids, k, g.value(depth-1, key))
 	}
-	abs += ")"
-	g.pool = append(g.pool, poolEntry{id, abs, unkeyed})
-	return gv{sx.T("h", xs...), abs, unkeyed}
+	return g.keep(n)
 }
 
 // hardKey: some hash has a non-string key that is a float or a container; with rich_data=false and a consumer without
@@ -223,15 +225,107 @@ func hardKey(n *node, seen map[*node]bool) bool {
 	return false
 }
 
-// the whole option x capability matrix for one value
-func emitMatrix(g *core.G, val string) {
-	hard := false
-	if xs, err := sx.Parse(val); err == nil && len(xs) == 1 {
-		func() {
-			defer func() { _ = recover() }()
-			hard = hardKey(parse(xs[0], map[int64]*node{}, map[int64]bool{}), map[*node]bool{})
-		}()
+// implOnly: the value holds something the model does not cover
+func implOnly(n *node) bool {
+	if n.kind == "tdef" || n.kind == "o" || (n.kind == "l" && n.lk == "td") {
+		return true
 	}
+	for _, k := range n.kids {
+		if implOnly(k) {
+			return true
+		}
+	}
+	return false
+}
+
+// write prints the op syntax: the first occurrence of an identified node defines it, later ones are (= id)
+func (n *node) write(sb *strings.Builder, seen map[*node]bool) {
+	hx := func(s string) string { return sx.Str(s).Atom }
+	switch n.kind {
+	case "u", "df":
+		sb.WriteString("(" + n.kind + ")")
+		return
+	case "b":
+		sb.WriteString("(b " + sx.B(n.b) + ")")
+		return
+	case "i":
+		sb.WriteString("(i " + strconv.FormatInt(n.i, 10) + ")")
+		return
+	case "f":
+		sb.WriteString("(f " + strconv.FormatUint(n.f, 10) + ")")
+		return
+	case "s":
+		sb.WriteString("(s " + hx(n.s) + ")")
+		return
+	}
+	if seen[n] {
+		sb.WriteString("(= " + strconv.FormatInt(n.id, 10) + ")")
+		return
+	}
+	seen[n] = true
+	id := strconv.FormatInt(n.id, 10)
+	switch n.kind {
+	case "x":
+		sb.WriteString("(x " + id + " " + hx(n.s) + ")")
+	case "l":
+		sb.WriteString("(l " + id + " " + n.lk + " " + hx(n.s) + " " + hx(n.disp) + ")")
+	case "tdef":
+		sb.WriteString("(tdef " + id + " " + hx(n.s) + " " + hx(n.disp) + ")")
+	case "sn", "a":
+		sb.WriteString("(" + n.kind + " " + id)
+		for _, k := range n.kids {
+			sb.WriteByte(' ')
+			k.write(sb, seen)
+		}
+		sb.WriteByte(')')
+	case "h":
+		sb.WriteString("(h " + id)
+		for i := 0; i+1 < len(n.kids); i += 2 {
+			sb.WriteString(" (")
+			n.kids[i].write(sb, seen)
+			sb.WriteByte(' ')
+			n.kids[i+1].write(sb, seen)
+			sb.WriteByte(')')
+		}
+		sb.WriteByte(')')
+	case "o":
+		sb.WriteString("(o " + id + " " + hx(n.s) + " " + hx(n.disp))
+		for i, k := range n.kids {
+			sb.WriteString(" (" + hx(n.names[i]) + " ")
+			k.write(sb, seen)
+			sb.WriteByte(')')
+		}
+		sb.WriteByte(')')
+	}
+}
+
+// finish builds the value with pcore to fill in what String() prints, and returns the op text
+func finish(c px.Context, root *node) (text string, ok bool) {
+	defer func() {
+		if e := recover(); e != nil {
+			ok = false
+		}
+	}()
+	b := &builder{c: c, memo: map[*node]px.Value{}, types: map[string]px.Value{}}
+	b.build(root)
+	for n, v := range b.memo {
+		if n.kind == "l" || n.kind == "o" || n.kind == "tdef" {
+			n.disp = v.String()
+		}
+	}
+	var sb strings.Builder
+	root.write(&sb, map[*node]bool{})
+	return sb.String(), true
+}
+
+// the whole option x capability matrix for one value
+func emitMatrix(g *core.G, c px.Context, root *node) {
+	val, ok := finish(c, root)
+	if !ok {
+		panic("generator produced a value pcore cannot build: " + fmt.Sprint(root.kind))
+	}
+	hard := hardKey(root, map[*node]bool{})
+	only := implOnly(root)
 	for _, rich := range []bool{true, false} {
 		for _, lref := range []bool{true, false} {
 			for dedup := 0; dedup <= 2; dedup++ {
@@ -239,7 +333,7 @@ func emitMatrix(g *core.G, val string) {
 					for _, cplx := range []bool{true, false} {
 						for _, thr := range []int{0, 1, 20, 1000000} {
 							at := ""
-							if hard && !rich && !cplx {
+							if only || (hard && !rich && !cplx) {
 								at = "@"
 							}
 							g.Emit(fmt.Sprintf("%sser (o %s %s %d) (c %s %s %d) %s", at, sx.B(rich), sx.B(lref), dedup, sx.B(bin), sx.B(cplx), thr, val))
@@ -251,11 +345,20 @@ func emitMatrix(g *core.G, val string) {
 	}
 }
 
-func s(x string) string { return "(s " + sx.Str(x).Atom + ")" }
+func emitText(g *core.G, c px.Context, val string) {
+	xs, err := sx.Parse(val)
+	if err != nil || len(xs) != 1 {
+		panic("bad fixed value " + val)
+	}
+	emitMatrix(g, c, parse(xs[0], map[int64]*node{}, map[int64]bool{}))
+}
 
-// hand-written shapes: every leaf kind alone / shared / as key, sharing of every identified kind, the witnesses of the
-// repaired defects, reserved keys
-func fixedValues(leaves []leafSpec) []string {
+func s(x string) string { return "(s " + sx.Str(x).Atom + ")" }
+func h(x string) string { return sx.Str(x).Atom }
+
+// hand-written shapes (the String() payloads are written `x` here and filled in by finish): every leaf kind alone /
+// shared / as key, sharing of every identified kind, the witnesses of the repaired defects, reserved keys, objects
+func fixedValues() []string {
 	L := s(longStr)
 	out := []string{
 		"(u)", "(df)", "(b t)", "(i 7)", "(f 4609434218613702656)", s("a"), L, "(x 1 x010203)", "(a 1)", "(h 1)",
@@ -286,16 +389,32 @@ func fixedValues(leaves []leafSpec) []string {
 		"(h 1 (" + s("__pvalue") + " (i 1)) (" + s("__pref") + " (i 0)))",
 		"(h 1 (" + s("__ptype") + " " + s("Sensitive") + ") ((i 1) (i 1)))",
 		"(a 1 (h 2 (" + s("__pref") + " (i 0))) (= 2))",
+		// object instances: shared, nested, with the default attribute omitted, next to strings equal to their type name
+		"(o 1 " + h("Verif::Unit") + " x)",
+		"(o 1 " + h("Verif::Box") + " x)",
+		"(o 1 " + h("Verif::Pair") + " x (x61 (i 1)) (x62 " + L + "))",
+		"(a 1 " + s("Verif::Pair") + " (o 2 " + h("Verif::Pair") + " x (x61 (i 1)) (x62 " + L + ")) (= 2) (o 3 " + h("Verif::Box") + " x (x76 (= 2))) " + L + ")",
+		"(o 1 " + h("Verif::Pair") + " x (x61 (sn 2 (x 3 x010203))) (x62 (h 4 ((i 1) (= 2)) ((= 3) (df)))))",
+		"(h 1 (" + s("k") + " (o 2 " + h("Verif::Box") + " x (x76 (a 3 (o 4 " + h("Verif::Unit") + " x) (= 4))))))",
+		// named types the loader knows, shared, next to the bare name
+		"(a 1 (l 2 td " + h("Verif::Pair") + " x) (= 2) " + s("Verif::Pair") + " (l 3 td " + h("Verif::Ints") + " x) " + s("Type") + " (l 4 ty " + h("String") + " x))",
 	}
-	for i, l := range leaves {
-		lf := fmt.Sprintf("(l 2 %s %s %s)", l.kind, sx.Str(l.enc).Atom, sx.Str(l.disp).Atom)
-		if i%3 == 0 {
-			out = append(out, lf)
-		}
-		// shared, next to a string equal to its text forms, and as a hash key
-		out = append(out, "(a 1 "+s(l.enc)+" "+lf+" (= 2) "+s(l.disp)+")")
-		if i%2 == 0 {
-			out = append(out, "(h 1 ("+lf+" (= 2)) ("+s("k")+" (= 2)))")
+	for _, t := range tdefSrc {
+		out = append(out, "(tdef 1 "+h(t)+" x)", "(a 1 (tdef 2 "+h(t)+" x) (= 2))")
+	}
+	i := 0
+	for _, k := range leafKinds {
+		for _, src := range leafSrc[k] {
+			lf := fmt.Sprintf("(l 2 %s %s x)", k, h(src))
+			if i%3 == 0 {
+				out = append(out, lf)
+			}
+			// shared, next to a string equal to its text, and as a hash key
+			out = append(out, "(a 1 "+s(src)+" "+lf+" (= 2) "+s("/"+src+"/")+")")
+			if i%2 == 0 {
+				out = append(out, "(h 1 ("+lf+" (= 2)) ("+s("k")+" (= 2)))")
+			}
+			i++
 		}
 	}
 	return out
@@ -342,25 +461,25 @@ func smallUniverse(n int) []string {
 }
 
 func gen(g *core.G) {
-	leaves := leafCatalogue()
-	for _, v := range fixedValues(leaves) {
-		emitMatrix(g, v)
+	c := px.CurrentContext()
+	ensureCatalogue(c)
+	for _, v := range fixedValues() {
+		emitText(g, c, v)
 	}
 	// exhaustive small universe: all arrays of <= 3 elements over the seven templates (thorough: <= 4 is 2800 arrays, sampled)
 	for _, v := range smallUniverse(3) {
-		emitMatrix(g, v)
+		emitText(g, c, v)
 	}
 	if g.Thorough() {
 		u4 := smallUniverse(4)
 		for i := 0; i < 600; i++ {
-			emitMatrix(g, u4[g.Rng.Intn(len(u4))])
+			emitText(g, c, u4[g.Rng.Intn(len(u4))])
 		}
 	}
 	// random DAGs with deliberate sharing
 	for i := 0; i < 300*g.Scale/2+150; i++ {
-		vg := &vgen{r: g.Rng, leaves: leaves}
-		v := vg.value(1+g.Rng.Intn(3), false)
-		emitMatrix(g, v.sx.String())
+		vg := &vgen{r: g.Rng}
+		emitMatrix(g, c, vg.value(1+g.Rng.Intn(3), false))
 	}
 	// malformed ops (outside the quantifier; both sides must answer bad-op)
 	for _, v := range []string{"(= 1)", "(a 1 (= 1))", "(a 1 (a 1))", "(h 1 ((i 1)))", "(q)", "(l 1 zz x x)"} {
